@@ -1453,6 +1453,8 @@ var ruleScopeS10 = &Rule{
 			}
 			adds := 0
 			stored := false
+			gatedBy := ""
+			loops := allLoops(f)
 			for _, b := range f.Blocks {
 				for _, ins := range b.Instrs {
 					if call, ok := ins.(*ssa.Call); ok {
@@ -1464,6 +1466,39 @@ var ruleScopeS10 = &Rule{
 						if fa, ok := st.Addr.(*ssa.FieldAddr); ok && fieldName(fa.X.Type(), fa.Field) == "LoopHeadLoc" {
 							if _, nm := namedPkgName(fa.X.Type()); nm == "VarInfo" {
 								stored = true
+								// the store may depend only on the header expression being there (a length test) and having a
+								// location (IsInitialLoc), and on the loop over the names it sits in
+								for _, e0 := range dominatingEdges(b) {
+									e := stripNot(e0)
+									okCond := false
+									switch x := e.cond.(type) {
+									case *ssa.Call:
+										if g := x.Call.StaticCallee(); g != nil && g.Name() == "IsInitialLoc" {
+											okCond = true
+										}
+									case *ssa.BinOp:
+										if _, isLen := isLenCall(x.X); isLen {
+											okCond = true
+										}
+										if _, isLen := isLenCall(x.Y); isLen {
+											okCond = true
+										}
+										if ref := x.Referrers(); ref != nil {
+											for _, r := range *ref {
+												if iff, ok := r.(*ssa.If); ok {
+													for _, l := range loops {
+														if l.header == iff.Block() {
+															okCond = true // the condition of the loop itself
+														}
+													}
+												}
+											}
+										}
+									}
+									if !okCond {
+										gatedBy = c.Pos(e.cond.Pos())
+									}
+								}
 							}
 						}
 					}
@@ -1474,7 +1509,10 @@ var ruleScopeS10 = &Rule{
 			}
 			n++
 			key := "SCOPE/S10:" + f.Name() + ":header-range"
-			if stored {
+			if stored && gatedBy != "" {
+				obs = append(obs, Ob{Key: key, Site: gatedBy, Verdict: VIOLATION,
+					Note: f.Name() + " records the loop's header range only under a further condition (" + gatedBy + "): for the other loops the control variables are visible inside their own header expressions"})
+			} else if stored {
 				obs = append(obs, Ob{Key: key, Site: c.Pos(f.Pos()), Verdict: OK})
 			} else {
 				obs = append(obs, Ob{Key: key, Site: c.Pos(f.Pos()), Verdict: VIOLATION,
